@@ -525,6 +525,8 @@ STORAGE_ACCESS = STORAGE_SETUP.replace('NV_G2', 'nv_g2 == (int64_t)features.size
   return 0;
 }
 '''
+# exactly one feature, resize()'s loop unwound: the named clauses fail directly when the two dispatches disagree
+STORAGE_SINGLE = STORAGE_ACCESS.replace('1 <= features.size && features.size <= NV_MAXF', 'features.size == 1')
 # two features: rows of the same pool are never shared
 STORAGE_DISJOINT = STORAGE_SETUP.replace('NV_G2', '0 <= nv_g2 && (uint64_t)nv_g2 < features.size && nv_g1 != nv_g2') + r'''
   nv_which = 1; dsrc_visit(&ds, nv_g1, &op);
@@ -605,7 +607,7 @@ def range_tensor_hook(P, n):
     return f'nv_t2i_resize({P.addr(obj)}, {P.expr(n["inner"][1])}, {P.expr(n["inner"][2])})'
 
 
-def storage_fns():
+def storage_fns(const_visit=True):
     types = [(r'^nano::datasource_t$', 'struct nv_dsrc'), (r'^nano::feature_t$|value_type$', 'struct nv_feat'),
              (r'^nano::features_t$|^std::vector<nano::feature_t>$', 'struct nv_features'),
              (r'^nano::feature_type$', 'int32_t'), (r'^std::unordered_map<nano::feature_type, long>$', 'struct nv_counts'),
@@ -617,10 +619,15 @@ def storage_fns():
                     (r'^dims\|nano::feature_t', '{*self}.m_dims')]
     hooks = [static_constexpr_hook(DSRC_TU, 'nano::datasource_t', ('maxu08', 'maxu16', 'maxu32')), pool_access_hook, range_tensor_hook]
     t2 = (r'^operator\(\)\|typename tbase::t(const|mutable)ref \(const nano::tensor_size_t, const int\)( const)?\|.*tensor_vector_storage_t, long, 2>', '(*nv_t2i_at({&0}, {1}, {2}))')
-    vec_at = (r'^operator\[\]\|std::vector<nano::feature_t>::const_reference \(std::vector::size_type\) const', '(*nv_feature_at({&0}, {1}))')
-    visit = Fn('dsrc_visit', DSRC_TU, 'visit', flt='nano::datasource_t::visit',
-               select=lambda d: len(astload.template_args(d)) == 1 and 'datasource.cpp' in astload.template_args(d)[0] and d['type']['qualType'].rstrip().endswith('const'),
-               self_struct='struct nv_dsrc', types=types, uf_float=False, hooks=hooks, aggregates=['struct nv_range'],
+    vec_at = (r'^operator\[\]\|std::vector<nano::feature_t>::(const_)?reference \(std::vector::size_type\)', '(*nv_feature_at({&0}, {1}))')
+    # visit() has a const overload (readers; instantiated in src/datasource.cpp by load()) and a non-const one (the writer
+    # datasource_t::set; instantiated in src/datasource/tabular.cpp): both dispatch on their own
+    vtu = DSRC_TU if const_visit else 'src/datasource/tabular.cpp'
+    vsel = (lambda d: len(astload.template_args(d)) == 1 and 'datasource.cpp' in astload.template_args(d)[0] and d['type']['qualType'].rstrip().endswith('const')) if const_visit \
+        else (lambda d: len(astload.template_args(d)) == 1 and 'datasource.h' in astload.template_args(d)[0] and not d['type']['qualType'].rstrip().endswith('const'))
+    visit = Fn('dsrc_visit', vtu, 'visit', flt='nano::datasource_t::visit', select=vsel,
+               self_struct='struct nv_dsrc', types=types + [(r'^\(lambda at .*datasource\.h:\d+:\d+\)$', 'struct nv_visitor')], uf_float=False,
+               hooks=[static_constexpr_hook(vtu, 'nano::datasource_t', ('maxu08', 'maxu16', 'maxu32')), pool_access_hook, range_tensor_hook], aggregates=['struct nv_range'],
                calls=[t2, vec_at, (r'^make_range\|', '(struct nv_range){ {0}, {1} }'), (r'^critical0\|', 'nv_throw()')],
                members=feat_members + [(r'^samples\|nano::datasource_t', '{self}->m_testing.n'), (r'^mask\|nano::datasource_t', 'nv_dsrc_mask')])
     upd = lambda nm, t: Fn(nm, DSRC_TU, 'resize', flt='nano::datasource_t::resize', select=lambda d: len(astload.param_types(d)) == 3,
@@ -681,6 +688,10 @@ def build(tier):
         targets.append(product_target(t1))
     targets.append(Target('datasource_storage_access', storage_fns(), STORAGE_H, enforce_none=True, harness=STORAGE_ACCESS))
     targets.append(Target('datasource_storage_disjoint', storage_fns(), STORAGE_H, enforce_none=True, harness=STORAGE_DISJOINT))
+    for nm, cv in (('datasource_storage_single', True), ('datasource_storage_single_w', False)):
+        targets.append(Target(nm, storage_fns(const_visit=cv), 'specs/C08/storage_single.h', enforce_none=True, harness=STORAGE_SINGLE, loops=0, cbmc_flags=['--unwind', '3', '--unwinding-assertions']))
+    targets.append(Target('datasource_storage_access_w', storage_fns(const_visit=False), STORAGE_H, enforce_none=True, harness=STORAGE_ACCESS))
+    targets.append(Target('datasource_storage_disjoint_w', storage_fns(const_visit=False), STORAGE_H, enforce_none=True, harness=STORAGE_DISJOINT))
     targets.append(Target('pairwise_select_scalar', pairloop_fns('select'), PAIRLOOP_H))
     targets.append(Target('pairwise_flatten', pairloop_fns('flatten'), PAIRLOOP_H))
     for op in ('drop', 'shuffle', 'undrop', 'unshuffle'):
